@@ -8,6 +8,7 @@ import (
 	"go/types"
 	"os"
 	"path/filepath"
+	"regexp"
 	"sort"
 	"strings"
 
@@ -476,7 +477,7 @@ func (w *World) ResolveType(te *TypeExpr, pkgName string) (SType, error) {
 
 func (w *World) TypeID(t types.Type) int {
 	t = deepUnalias(t)
-	k := t.String()
+	k := canonBasic(t.String())
 	if id, ok := w.typeIDs[k]; ok {
 		return id
 	}
@@ -544,9 +545,32 @@ func deepUnalias(t types.Type) types.Type {
 }
 
 // shortType strips the module path from a type string for readable names.
+// canonBasic: byte and rune are aliases of uint8 and int32 (identical types, different spelling)
+var canonBasicRe = regexp.MustCompile(`(^|[^A-Za-z0-9_.])(byte|rune)($|[^A-Za-z0-9_])`)
+
+var canonBasicCache = map[string]string{}
+
+func canonBasic(s string) string {
+	if !strings.Contains(s, "byte") && !strings.Contains(s, "rune") {
+		return s
+	}
+	if r, ok := canonBasicCache[s]; ok {
+		return r
+	}
+	in := s
+	for i := 0; i < 3; i++ {
+		s = canonBasicRe.ReplaceAllStringFunc(s, func(m string) string {
+			m = strings.Replace(m, "byte", "uint8", 1)
+			return strings.Replace(m, "rune", "int32", 1)
+		})
+	}
+	canonBasicCache[in] = s
+	return s
+}
+
 func (w *World) shortType(t types.Type) string {
 	t = deepUnalias(t)
-	s := t.String()
+	s := canonBasic(t.String())
 	s = strings.ReplaceAll(s, w.ModPath+"/", "")
 	s = strings.ReplaceAll(s, "github.com/", "")
 	return s
